@@ -903,7 +903,7 @@ func (r *envelopingReader) prepareNext() error {
 			r.rw.reportError(err)
 			return err
 		}
-		r.current = io.LimitReader(r.r, int64(env.length))
+		r.current = &exactLengthReader{r: r.r, remaining: int64(env.length)}
 	}
 
 	if r.rw.op.serverEnveloper == nil {
@@ -1810,6 +1810,30 @@ func (l *limitWriter) Write(data []byte) (n int, err error) {
 		return 0, err
 	}
 	return l.buf.Write(data)
+}
+
+// exactLengthReader reads exactly the number of bytes that a message envelope
+// announced. Unlike io.LimitReader, it reports io.ErrUnexpectedEOF if the
+// underlying stream ends before the whole message has been read, so that a
+// truncated message is never mistaken for a complete one.
+type exactLengthReader struct {
+	r         io.Reader
+	remaining int64
+}
+
+func (e *exactLengthReader) Read(data []byte) (n int, err error) {
+	if e.remaining <= 0 {
+		return 0, io.EOF
+	}
+	if int64(len(data)) > e.remaining {
+		data = data[:e.remaining]
+	}
+	n, err = e.r.Read(data)
+	e.remaining -= int64(n)
+	if errors.Is(err, io.EOF) && e.remaining > 0 {
+		err = io.ErrUnexpectedEOF
+	}
+	return n, err
 }
 
 type hardLimitReader struct {
